@@ -19,6 +19,17 @@ class G:
         self.tags = tags
         self.tempi = tempi
         self.next_label = 1
+        # a wide score now and then: one sequence of 65 - 300 children (absolute times beyond 100 beats with the larger units),
+        # so that code paths keyed on the number of children or on the magnitude of the times are met as well
+        self.wide = rng.random() < 0.04
+
+    def wide_seq(self):
+        n = self.r.choice([65, 66, 70, 130, 257, 258, 300])
+        kids = []
+        for _ in range(n):
+            kids.append(self.tree(1, kind="S") if self.r.random() < 0.03 else self.leaf())
+        tag, tempo = self.meta()
+        return ["S", tag, tempo] + kids
 
     def label(self):
         l = self.next_label
@@ -38,6 +49,13 @@ class G:
         """kind: None (any), 'S', 'P', 'L'"""
         if depth is None:
             depth = self.max_depth
+            if self.wide and kind != "L":
+                self.wide = False
+                w = self.wide_seq()
+                if kind == "P" or (kind is None and self.r.random() < 0.3):
+                    tag, tempo = self.meta()
+                    return ["P", tag, tempo, w, self.tree(min(depth, 2))]
+                return w
         r = self.r.random()
         if kind == "L" or (kind is None and (depth == 0 or r < 0.35)):
             return self.leaf()
